@@ -24,6 +24,7 @@ theorem C18_source_constants :
     Supv.Gen.C18.distNames = distNames ∧ Supv.Gen.C18.startNames = startNames ∧ Supv.Gen.C18.concNames = concNames ∧
     Supv.Gen.C18.failNames = failNames ∧ Supv.Gen.C18.linkNames = linkNames ∧ Supv.Gen.C18.syncNames = syncNames ∧
     Supv.Gen.C18.statNames = statNames ∧ Supv.Gen.C18.syncDefault = syncDefault ∧
+    Supv.Gen.C18.syncDefaultShared = syncDefaultShared ∧
     Supv.Gen.C18.reservedMulticast = reservedMulticast ∧
     Supv.Gen.C18.timeoutBounds = [timeoutBounds.1, timeoutBounds.2] ∧
     Supv.Gen.C18.ticksBounds = [ticksBounds.1, ticksBounds.2] ∧
@@ -31,9 +32,10 @@ theorem C18_source_constants :
     Supv.Gen.C18.ipByteBounds = [[byteBounds.1, byteBounds.2], [multicastFirstByte.1, multicastFirstByte.2], [byteBounds.1, byteBounds.2]] ∧
     -- `if 10 > histo or histo > 1500`
     Supv.Gen.C18.histoCmps = [(["Gt"], [histoBounds.1]), (["Gt"], [histoBounds.2])] ∧
-    -- `if 1.0 > period or period > 3600.0` (a reversed comparison would also refuse `nan`)
-    Supv.Gen.C18.periodCmps = [(["Gt"], [(periodBounds.1 : Int)]), (["Gt"], [(periodBounds.2 : Int)])] ∧
-    Supv.Gen.C18.periodsCmps = [(["Eq"], [0]), (["Gt"], [(maxPeriods : Int)]), (["Gt"], [(periodBounds.1 : Int)]), (["Gt"], [(periodBounds.2 : Int)])] ∧
+    -- `if not (1.0 <= period <= 3600.0)`: false for `nan` too
+    Supv.Gen.C18.periodCmps = [(["Not", "LtE", "LtE"], [(periodBounds.1 : Int), (periodBounds.2 : Int)])] ∧
+    Supv.Gen.C18.periodsCmps = [(["Eq"], [0]), (["Gt"], [(maxPeriods : Int)]),
+      (["Not", "LtE", "LtE"], [(periodBounds.1 : Int), (periodBounds.2 : Int)])] ∧
     -- `if 0 <= value <= 100`, `if value >= 0`
     Supv.Gen.C18.loadCmps = [(["LtE", "LtE"], [loadBounds.1, loadBounds.2])] ∧
     Supv.Gen.C18.seqCmps = [(["GtE"], [seqMin])] ∧
@@ -228,16 +230,6 @@ structure ProcInDomain (r : ProcRules) : Prop where
   sfs : r.sfs ∈ sfsNames
   rfs : r.rfs ∈ rfsNames
 
-theorem fieldOf_start_nonneg (ch : List Elt) (x : Int) (hx : 0 ≤ x) : 0 ≤ fieldOf pStart ch x := by
-  rcases fieldOf_mem pStart ch x with h | ⟨e, _, h⟩
-  · rw [h]; exact hx
-  · exact parseSeq_nonneg _ _ h
-
-theorem fieldOf_stop_nonneg_or_dflt (ch : List Elt) (x : Int) : fieldOf pStop ch x = x ∨ 0 ≤ fieldOf pStop ch x := by
-  rcases fieldOf_mem pStop ch x with h | ⟨e, _, h⟩
-  · left; exact h
-  · right; exact parseSeq_nonneg _ _ h
-
 /-- **Every resolved value is in its domain**, for every document (overlapping patterns, model chains and cycles, any
     texts) and every name: sequences are `≥ 0`, the expected load is in `[0;100]`, the strategies are members of their
     enumerations (booleans are in their domain by typing) — provided the inherited rules `r0` are (the defaults are). -/
@@ -375,11 +367,6 @@ theorem C18_identifiers_supersede_partial (d : Doc) (e : Elt) (isPattern : Bool)
   rw [checkDependencies_ids, loadModelRules_eq_foldr, foldr_ids]
   exact ids_meet_spec d isPattern _ _ h1 h2 hres
 
-theorem procRules_ext (a b : ProcRules) (h1 : a.ids = b.ids) (h2 : a.startSeq = b.startSeq) (h3 : a.stopSeq = b.stopSeq)
-    (h4 : a.required = b.required) (h5 : a.waitExit = b.waitExit) (h6 : a.load = b.load) (h7 : a.sfs = b.sfs)
-    (h8 : a.rfs = b.rfs) : a = b := by
-  cases a; cases b; simp_all
-
 /-- **The model meets the specification**: for the element chosen by the lookup, what the code computes is exactly the
     documented result `specProc` (the value the judge compares the implementation with), for every document without
     sign residue. -/
@@ -482,28 +469,6 @@ theorem C18_stop_defaults_to_start_app (d : Doc) (instances : List String) (app 
   simp [hneg]
 
 /-! ## Aliases expand in order -/
-
-theorem substFirst_of_not_mem (name : String) (vals : List String) : ∀ (ids : List String), name ∉ ids →
-    substFirst name vals ids = ids := by
-  intro ids
-  induction ids with
-  | nil => intro _; rfl
-  | cons h t ih =>
-    intro hn
-    simp only [List.mem_cons, not_or] at hn
-    have : (h == name) = false := by simpa using fun hc => hn.1 hc.symm
-    simp only [substFirst, this, Bool.false_eq_true, if_false, ih hn.2]
-
-theorem substFirst_split (name : String) (vals : List String) : ∀ (pre post : List String), name ∉ pre →
-    substFirst name vals (pre ++ name :: post) = pre ++ vals ++ post := by
-  intro pre
-  induction pre with
-  | nil => intro post _; simp [substFirst]
-  | cons h t ih =>
-    intro post hn
-    simp only [List.mem_cons, not_or] at hn
-    have : (h == name) = false := by simpa using fun hc => hn.1 hc.symm
-    simp only [List.cons_append, substFirst, this, Bool.false_eq_true, if_false, ih post hn.2, List.append_assoc]
 
 /-- **Aliases expand in order**: the aliases are applied one after the other in declaration order; each replaces, in place,
     the first occurrence of its name by its values (the order of everything else is kept); an alias that does not occur is
@@ -706,26 +671,18 @@ def C18_period_in_range_or_default_statement : Prop :=
   ∀ (dflt : List String) (cfg : Config),
     (convertOptions dflt cfg).collectingPeriod = .val 5 1 ∨ periodInRange (convertOptions dflt cfg).collectingPeriod = true
 
-/-- Known finding `C18:option:to_period:nan`: `1.0 > nan` and `nan > 3600.0` are both false, `nan` is kept.
-    Witness replayed on the implementation by `corpus/C18/kf_period_nan.json`. -/
-theorem C18_period_in_range_or_default_refuted : ¬ C18_period_in_range_or_default_statement := by
-  intro hs
-  have := hs syncDefault [("stats_collecting_period", "nan")]
-  revert this
-  decide
-
-/-- **`to_period`: in range or default**, under the exact excluded hypothesis: the text is not a spelling of `nan` -/
-theorem C18_period_in_range_or_default_partial (dflt : List String) (cfg : Config)
-    (hn : ∀ s, lookupStr cfg "stats_collecting_period" = some s → pyFloat s ≠ some .nan) :
-    (convertOptions dflt cfg).collectingPeriod = .val 5 1 ∨ periodInRange (convertOptions dflt cfg).collectingPeriod = true := by
+/-- **`to_period`: in range or default** — the full statement (the finding `C18:option:to_period:nan` is repaired by
+    7f9aea6; `corpus/C18/kf_period_nan.json` is now a regression case) -/
+theorem C18_period_in_range_or_default : C18_period_in_range_or_default_statement := by
+  intro dflt cfg
   simp only [convertOptions, getValue]
-  cases hl : lookupStr cfg "stats_collecting_period" with
+  cases lookupStr cfg "stats_collecting_period" with
   | none => left; rfl
   | some s =>
     simp only
     cases hp : toPeriod s with
     | none => left; rfl
-    | some p => right; exact toPeriod_range s p hp (hn s hl)
+    | some p => right; exact toPeriod_range s p hp
 
 /-- the full statement for `to_periods`: one to three periods, each in `[1;3600]`, or the default -/
 def C18_periods_in_range_or_default_statement : Prop :=
@@ -733,20 +690,11 @@ def C18_periods_in_range_or_default_statement : Prop :=
     let ps := (convertOptions dflt cfg).statsPeriods
     ps = [.val 10 1] ∨ ((∀ p ∈ ps, periodInRange p = true) ∧ 1 ≤ ps.length ∧ ps.length ≤ 3)
 
-/-- Known finding `C18:option:to_periods:nan` (the list is not even sorted then: `5,nan,1` is kept in that order) -/
-theorem C18_periods_in_range_or_default_refuted : ¬ C18_periods_in_range_or_default_statement := by
-  intro hs
-  have := hs syncDefault [("stats_periods", "5,nan,1")]
-  revert this
-  decide
-
-/-- **`to_periods`: in range or default**, under the exact excluded hypothesis: no item is a spelling of `nan` -/
-theorem C18_periods_in_range_or_default_partial (dflt : List String) (cfg : Config)
-    (hn : ∀ s, lookupStr cfg "stats_periods" = some s → ∀ x ∈ listOfStrings s, pyFloat x ≠ some .nan) :
-    let ps := (convertOptions dflt cfg).statsPeriods
-    ps = [.val 10 1] ∨ ((∀ p ∈ ps, periodInRange p = true) ∧ 1 ≤ ps.length ∧ ps.length ≤ 3) := by
+/-- **`to_periods`: in range or default** — the full statement (`C18:option:to_periods:nan` repaired by 7f9aea6) -/
+theorem C18_periods_in_range_or_default : C18_periods_in_range_or_default_statement := by
+  intro dflt cfg
   simp only [convertOptions, getValue]
-  cases hl : lookupStr cfg "stats_periods" with
+  cases lookupStr cfg "stats_periods" with
   | none => left; rfl
   | some s =>
     simp only
@@ -774,8 +722,8 @@ theorem C18_periods_in_range_or_default_partial (dflt : List String) (cfg : Conf
             have hraw := (s2 p).mp hp
             have := o2 p hraw
             simp only [List.mem_map] at this
-            obtain ⟨x, hx, hxp⟩ := this
-            exact toPeriod_range x p hxp (hn s hl x hx)
+            obtain ⟨x, _, hxp⟩ := this
+            exact toPeriod_range x p hxp
           · rw [s1, o1, List.length_map]; omega
           · rw [s1, o1, List.length_map]; omega
 
@@ -862,18 +810,175 @@ def okSync (r : Except Err Options) : List String := match r with | .ok o => o.s
 def C18_options_history_independent_statement : Prop :=
   ∀ (cfg1 cfg2 : Config), (buildOptions (buildOptions syncDefault cfg1).2 cfg2).1 = (buildOptions syncDefault cfg2).1
 
-/-- Known finding `C18:option:synchro-default-mutated`: `check_options` removes CORE / STRICT in place from the class
-    attribute `SYNCHRO_DEFAULT_OPTIONS`; a later dictionary that falls back to the default gets the mutated list. -/
-theorem C18_options_history_independent_refuted : ¬ C18_options_history_independent_statement := by
-  intro hs
-  have := congrArg okSync (hs [("supvisors_list", "a")] [("supvisors_list", "a"), ("core_identifiers", "a")])
-  revert this
-  decide
+/-- **The effective options are a function of the dictionary alone** — the full statement (the finding
+    `C18:option:synchro-default-mutated` is repaired by b925545: a copy of the default list is handed to `_get_value`, so the
+    in-place removals of `check_options` never reach the class attribute; `syncDefaultShared` is read from the source) -/
+theorem C18_options_history_independent : C18_options_history_independent_statement := by
+  intro cfg1 cfg2
+  simp [buildOptions, syncDefaultShared]
 
-/-- under the exact excluded hypothesis — the earlier dictionary gives valid `synchro_options` of its own — the default is
-    left untouched -/
-theorem C18_options_history_independent_partial (cfg1 cfg2 : Config) (h : usesDefaultSync cfg1 = false) :
-    (buildOptions (buildOptions syncDefault cfg1).2 cfg2).1 = (buildOptions syncDefault cfg2).1 := by
-  simp [buildOptions, h]
+/-- a construction leaves `SYNCHRO_DEFAULT_OPTIONS` as it found it -/
+theorem C18_default_synchro_untouched (dflt : List String) (cfg : Config) : (buildOptions dflt cfg).2 = dflt := by
+  simp [buildOptions, syncDefaultShared]
+
+/-- the reference list of a sign has no duplicate (hypothesis of `C18_at_assignment_injective`): it comes out of
+    `mapper.filter`, or is the key list of the instance dictionary -/
+theorem C18_reference_list_nodup (m : Mapper) (l : List String) (h : m.instances.Nodup) : (refIdentifiers m l).Nodup := by
+  unfold refIdentifiers
+  split
+  · exact h
+  · exact dedup_nodup _
+
+/-- **`#` on an application**: when the name ends with `-N` / `_N` (N ≥ 1) the application goes to the N-th name of the
+    list (rolling over beyond its length); otherwise its start sequence is reset to 0 -/
+theorem C18_app_hash_assignment (instances : List String) (app : String) (r : AppRules) :
+    (∀ ds, appIndexDigits app = some ds → natOfDigits ds ≠ 0 → appHashRef instances r ≠ [] →
+      appCheckHash instances app r = .ok { r with ids := { r.ids with identifiers :=
+        [(appHashRef instances r).getD ((natOfDigits ds - 1) % (appHashRef instances r).length) ""] } }) ∧
+    (appIndexDigits app = none → appCheckHash instances app r = .ok { r with startSeq := 0 }) ∧
+    (∀ ds, appIndexDigits app = some ds → natOfDigits ds = 0 → appCheckHash instances app r = .ok { r with startSeq := 0 }) := by
+  refine ⟨?_, ?_, ?_⟩
+  · intro ds h1 h2 h3
+    have h3' : (appHashRef instances r).isEmpty = false := by
+      cases hh : appHashRef instances r with
+      | nil => exact absurd hh h3
+      | cons x t => rfl
+    simp [appCheckHash, h1, h2, h3']
+  · intro h1; simp [appCheckHash, h1]
+  · intro ds h1 h2; simp [appCheckHash, h1, h2]
+
+/-- **`to_multicast_group`: in range or refused** (then the default `None` applies): the address is not a reserved one and
+    the port is in `[1;65535]` -/
+theorem C18_multicast_group_in_range_or_default (dflt : List String) (cfg : Config) :
+    match (convertOptions dflt cfg).multicastGroup with
+    | none => True
+    | some (addr, port) => addr ∉ reservedMulticast ∧ 1 ≤ port ∧ port ≤ 65535 := by
+  simp only [convertOptions, getValue]
+  cases lookupStr cfg "multicast_group" with
+  | none => trivial
+  | some v =>
+    simp only
+    cases hm : toMulticastGroup v with
+    | none => trivial
+    | some ap =>
+      obtain ⟨addr, port⟩ := ap
+      simp only [Option.map_some, Option.getD_some]
+      unfold toMulticastGroup at hm
+      split at hm
+      · rename_i a p _
+        simp only at hm
+        split at hm
+        · cases hm
+        · rename_i hres
+          split at hm
+          · cases ht : toRanged portBounds.1 portBounds.2 (String.ofList p) with
+            | none => rw [ht] at hm; cases hm
+            | some x =>
+              rw [ht] at hm
+              simp only [Option.map_some, Option.some.injEq, Prod.mk.injEq] at hm
+              obtain ⟨rfl, rfl⟩ := hm
+              obtain ⟨_, lo, hi⟩ := toRanged_some _ _ _ _ ht
+              refine ⟨by simpa using hres, by simpa [portBounds] using lo, by simpa [portBounds] using hi⟩
+          · cases hm
+      · cases hm
+
+/-! ## The model is accepted by the judge -/
+
+/-- **The judge accepts what the model computes** (so the specification is not vacuous and the correspondence
+    model = implementation transfers the verdict): for every document, every regular-expression table and every name,
+    when the lookup does not hit an invalid regular expression and the chain of the chosen element has no sign residue
+    (the two known findings), the resolved rules are one of the documented results — lookup (exact name before patterns,
+    a longest pattern), chain, domains and dependencies together. -/
+theorem C18_model_accepted_by_judge (d : Doc) (app proc : String) (r0 r : ProcRules)
+    (h1 : r0.ids.atIds = []) (h2 : r0.ids.hashIds = [])
+    (h : loadProgramRules d app proc r0 = .ok r)
+    (hres : ∀ e p, getProgramElement d app proc = .ok (some e, p) → signResidue d (chain d LOOP_CHECK e) = false) :
+    judgeProc d app proc r0 (.ok r) = none := by
+  have hmem : ∃ c, getProgramElement d app proc = .ok c ∧ r = specProc d c r0 := by
+    unfold loadProgramRules at h
+    split at h
+    · cases h
+    · rename_i e p hget
+      injection h with h; subst h
+      exact ⟨(some e, p), hget, C18_resolution_meets_spec d e p r0 h1 h2 (hres e p hget)⟩
+    · rename_i p hget
+      injection h with h; subst h
+      exact ⟨(none, p), hget, resolution_meets_spec_none d p r0 h1 h2⟩
+  obtain ⟨c, hget, hr⟩ := hmem
+  have hc := getProgramElement_mem d app proc c hget
+  have hcont : ((progCandidates d app proc).map (fun c => specProc d c r0)).contains r = true := by
+    simp only [List.contains_eq_mem, List.mem_map, decide_eq_true_eq]
+    exact ⟨c, hc, hr.symm⟩
+  unfold judgeProc
+  simp only
+  rw [if_pos hcont]
+
+/-! ## Non-vacuity: the hypotheses of the theorems are met by concrete, non-trivial values -/
+
+/-- a document with an exact entry and two overlapping patterns, a model chain and a cycle -/
+def sampleDoc : Doc :=
+  { aliases := [("al1", "n1,n2")]
+    models := [{ name := some "m1", children := [("reference", "m2"), ("start_sequence", "5"), ("required", "true")] },
+               { name := some "m2", children := [("reference", "m1"), ("expected_loading", "40"), ("stop_sequence", "-1")] }]
+    apps := [{ elt := { name := some "web", children := [("start_sequence", "2")] }
+               programs := [{ name := some "srv_01", children := [("expected_loading", "10")] },
+                            { pattern := some "srv", children := [("reference", "m1"), ("expected_loading", "101")] },
+                            { pattern := some "srv_", children := [("reference", "m1"), ("identifiers", "#,al1")] }] }]
+    matchTable := [("srv", "srv_01", .len 3), ("srv_", "srv_01", .len 4), ("srv", "srv_02", .len 3), ("srv_", "srv_02", .len 4)] }
+
+-- exact name beats the two matching patterns
+example : ∃ p ∈ (sampleDoc.apps.headD default).programs, p.name = some "srv_01" :=
+  ⟨{ name := some "srv_01", children := [("expected_loading", "10")] }, by decide, rfl⟩
+example : (loadProgramRules sampleDoc "web" "srv_01" {}).toOption.map (·.load) = some 10 := by decide
+-- the longest of two matching patterns wins; the cyclic chain m1 -> m2 -> m1 stops after three elements;
+-- the out-of-range load 101 of the shorter pattern is not even looked at; `required` survives (start sequence 5);
+-- the stop sequence -1 leaves the default, which becomes the start sequence
+example : (loadProgramRules sampleDoc "web" "srv_02" {}).toOption =
+    some { ids := { identifiers := [], atIds := [], hashIds := ["n1", "n2"] },
+           startSeq := 5, stopSeq := 5, required := true, waitExit := false, load := 40, sfs := "ABORT", rfs := "CONTINUE" } := by
+  decide
+example : (chain sampleDoc LOOP_CHECK ((sampleDoc.apps.headD default).programs.getD 2 default)).length = 3 := by decide
+example : ProcInDomain {} := ⟨by decide, by decide, by decide, by decide⟩
+example : AppInDomain {} := ⟨by decide, by decide, by decide, by decide, by decide⟩
+example : signResidue sampleDoc (chain sampleDoc LOOP_CHECK ((sampleDoc.apps.headD default).programs.getD 2 default)) = false := by
+  decide
+example : judgeProc sampleDoc "web" "srv_02" {} (loadProgramRules sampleDoc "web" "srv_02" {}) = none := by decide
+-- the judge is not vacuous either: it rejects the residue witness and a wrong value
+example : (judgeProc residueDoc "a" "x" {}
+    (.ok (checkDependencies true (loadModelRules residueDoc LOOP_CHECK residueElt {})))).isSome = true := by decide
+example : (judgeProc sampleDoc "web" "srv_02" {} (.ok { startSeq := 5, stopSeq := 0 })).isSome = true := by decide
+
+/-- a group of three `#` processes over two known instances (and an unknown name): round-robin; of three `@` processes:
+    two assigned, the third left unassigned -/
+def sampleMapper : Mapper := { instances := ["i1", "i2"], nicks := [("n1", "i1"), ("n2", "i2")] }
+def sampleGroup (sign : String) : List GProc :=
+  (List.range 3).map (fun k =>
+    { name := s!"p{k}", index := k,
+      ids := if sign == "#" then { identifiers := [], hashIds := ["n2", "typo", "n1"] } else { identifiers := [], atIds := ["n2", "typo", "n1"] } })
+example : ∀ p ∈ sampleGroup "#", p.ids.hashIds.isEmpty = false ∧ p.ids.identifiers = [] := by decide
+example : refIdentifiers sampleMapper ["n2", "typo", "n1"] ≠ [] := by decide
+example : ((assignHash sampleMapper ["n2", "typo", "n1"] (sampleGroup "#")).toOption.map (·.map (·.ids.identifiers))) =
+    some [["i2"], ["i1"], ["i2"]] := by decide
+example : (assignAt sampleMapper ["n2", "typo", "n1"] (sampleGroup "@")).map (fun p => (p.ids.identifiers, p.ids.atIds)) =
+    [(["i2"], []), (["i1"], []), ([], ["n2", "typo", "n1"])] := by decide
+example : (refIdentifiers sampleMapper ["n2", "typo", "n1"]).Nodup := by decide
+
+-- options: a dictionary with in-range, out-of-range and clean-up cases
+def sampleCfg : Config :=
+  [("synchro_timeout", "20"), ("inactivity_ticks", "1"), ("stats_histo", "abc"), ("event_link", "zmq"), ("synchro_options", "core,timeout,CORE"),
+   ("supvisors_failure_strategy", "shutdown"), ("stats_periods", "60, 5,7.5"), ("stats_collecting_period", "2.5")]
+example : (convertOptions syncDefault sampleCfg).synchroOptions.Nodup := by decide
+example : (checkOptions (convertOptions syncDefault sampleCfg)).toOption.map
+    (fun o => (o.synchroTimeout, o.inactivityTicks, o.statsHisto, o.eventLink)) = some (20, 2, 200, "ZMQ") := by decide
+example : (checkOptions (convertOptions syncDefault sampleCfg)).toOption.map
+    (fun o => (o.synchroOptions, o.failureStrategy)) = some (["TIMEOUT"], "CONTINUE") := by decide
+example : (checkOptions (convertOptions syncDefault sampleCfg)).toOption.map
+    (fun o => (o.statsPeriods, o.collectingPeriod)) = some ([.val 5 1, .val 15 2, .val 60 1], .val 5 2) := by decide
+-- nan and the other out-of-range spellings fall back; the default synchro list is cleaned on a copy
+example : (convertOptions syncDefault [("stats_collecting_period", "nan"), ("stats_periods", "5,nan,1")]).collectingPeriod = .val 5 1 ∧
+    (convertOptions syncDefault [("stats_collecting_period", "nan"), ("stats_periods", "5,nan,1")]).statsPeriods = [.val 10 1] := by decide
+example : okSync (buildOptions (buildOptions syncDefault [("supvisors_list", "a")]).2 [("supvisors_list", "a"), ("core_identifiers", "a")]).1 =
+    ["STRICT", "TIMEOUT", "CORE"] := by decide
+example : usesDefaultSync sampleCfg = false := by decide
 
 end Supv.Props.C18
